@@ -111,6 +111,12 @@ func (l *lexer) Lex(lval *yySymType) int {
 			continue
 
 		default:
+			// Parser tokens are numbered from the unicode private use area,
+			// such a rune must not be passed as a token.
+			if token >= yyPrivate {
+				return yyLexErrorf(l, "unexpected character %q", text)
+			}
+
 			lval.yys = int(token)
 			lval.string = text
 
